@@ -10,7 +10,7 @@ def main():
         'floats: concrete representatives of the output classes of FormatFloat(f,-1) (integral, fractional, huge, tiny); digit generation is not symbolic',
         'strconv.ParseFloat on symbolic text is over-approximated (error or some float, never a panic)',
         'keys over [A-Za-z0-9_-]; string values exclude quote, backslash, CR, LF and the spellings true/false, as the property does',
-    ], 'The real writer (writeTOMLSection -> writeTOMLKeyValue -> formatTOMLValue/needsQuoting/getInlineComment, its Fprintf output captured) and the real parser functions (shouldSkipLine, isSectionHeader, parseSectionHeader, parseKeyValuePair, stripInlineComment, parseValue) are executed symbolically on symbolic strings (L<=4 quick / 6 thorough), ints, bools, keys, comments and padding; the solver decides value-and-type equality of the round trip and absence of panics for every file content up to L bytes.')
+    ], 'The real writer (writeTOMLSection -> writeTOMLKeyValue -> formatTOMLValue/needsQuoting/getInlineComment, its Fprintf output captured) and the real parser functions (shouldSkipLine, isSectionHeader, parseSectionHeader, parseKeyValuePair, stripInlineComment, parseValue) (and writeTOMLSections on every pair of the seven known sections, the header-less default section included: HarnessC20Sections) are executed symbolically on symbolic strings (L<=4 quick / 6 thorough), ints, bools, keys, comments and padding; the solver decides value-and-type equality of the round trip and absence of panics for every file content up to L bytes.')
     sys.exit(rc)
 
 if __name__ == '__main__':
